@@ -1,1 +1,252 @@
-/-! # C03 — property theorems (stub) -/
+import Okane.Props.C01
+/-!
+# C03 — omitted and assigned amounts are inferred exactly
+-/
+set_option linter.unusedSectionVars false
+namespace Okane
+variable {α κ : Type} [DecidableEq α] [DecidableEq κ]
+open Spec
+
+/-- **C03_assign** (`acct = X`, X with a commodity): the posting receives exactly X minus the account's current
+balance in that commodity, and the step leaves the account at X in that commodity; no other commodity of the
+account moves. -/
+theorem C03_assign (date : Date) (st st' : TxnState α κ) (idx : Nat) (p : RPosting α κ) (s : SingleAmount κ)
+    (ha : p.amount = none) (hb : p.balance = some (.single s)) (hinv : Balance.Inv st.bal)
+    (h : stepPosting date st idx p = .ok st') :
+    (∃ out, st'.postings = st.postings ++ [out] ∧ out.account = p.account ∧
+        out.amount = [(s.commodity, s.value - Amount.getPart (Balance.get st.bal p.account) s.commodity)]) ∧
+    Amount.getPart (Balance.get st'.bal p.account) s.commodity = s.value ∧
+    (∀ c, c ≠ s.commodity → Amount.getPart (Balance.get st'.bal p.account) c = Amount.getPart (Balance.get st.bal p.account) c) := by
+  rw [stepPosting_assign date st idx p _ ha hb] at h
+  simp only [Balance.setPartial, PostingAmt.checkSub, PostingAmt.neg, PostingAmt.checkAdd, SingleAmount.checkAdd,
+    SingleAmount.neg, Amount.setPartial_snd, if_true, Outcome.map'] at h
+  simp only [Outcome.ok.injEq] at h
+  subst h
+  refine ⟨⟨_, rfl, rfl, ?_⟩, ?_, ?_⟩
+  · simp [PostingAmt.toAmount, Rat.sub_eq_add_neg]
+  · simp only [Balance.get_insert, if_true]
+    rw [Amount.setPartial_fst_getPart _ _ (hinv p.account).1]; simp
+  · intro c hc
+    simp only [Balance.get_insert, if_true]
+    rw [Amount.setPartial_fst_getPart _ _ (hinv p.account).1]; simp [Ne.symm hc]
+
+/-- **C03_assign0** (`acct = 0`): with at most one commodity held the posting receives minus the whole balance and
+the account is left empty; with two or more commodities the step is rejected. -/
+theorem C03_assign0 (date : Date) (st : TxnState α κ) (idx : Nat) (p : RPosting α κ)
+    (ha : p.amount = none) (hb : p.balance = some .zero) :
+    (∀ prev, (Balance.get st.bal p.account).toPosting = .ok prev →
+       ∃ st', stepPosting date st idx p = .ok st' ∧ Balance.get st'.bal p.account = [] ∧
+         st'.postings = st.postings ++ [⟨p.account, prev.neg.toAmount, none⟩]) ∧
+    ((Balance.get st.bal p.account).length ≥ 2 → stepPosting date st idx p = .err .balanceFailure) := by
+  rw [stepPosting_assign date st idx p _ ha hb]
+  constructor
+  · intro prev hprev
+    simp only [Balance.setPartial, hprev, PostingAmt.checkSub, PostingAmt.checkAdd]
+    refine ⟨_, rfl, ?_, rfl⟩
+    simp [Balance.get_insert]
+  · intro hlen
+    have : (Balance.get st.bal p.account).toPosting = .err .postingAmountRequired := by
+      match hg : Balance.get st.bal p.account with
+      | [] => simp [hg] at hlen
+      | [_] => simp [hg] at hlen
+      | _ :: _ :: _ => simp [Amount.toPosting]
+    simp [Balance.setPartial, this]
+
+/-- **C03_two**: a second unconstrained posting is rejected, naming both. -/
+theorem C03_two (date : Date) (st : TxnState α κ) (idx first : Nat) (p : RPosting α κ)
+    (ha : p.amount = none) (hb : p.balance = none) (hu : st.unfilled = some first) :
+    stepPosting date st idx p = .err (.undeducible first idx) := by
+  rw [stepPosting_omitted date st idx p ha hb, hu]
+
+/-- two or more unconstrained postings: the whole transaction is rejected (never accepted, never a crash). -/
+theorem C03_two_txn (prec : κ → Option Nat) (bal : Balance α κ) (t : RTxn α κ) (h2 : omittedCount t.posts ≥ 2) :
+    ∃ e, addTransaction prec bal t = .err e := by
+  have hc := C01_no_crash prec bal t
+  cases h : addTransaction prec bal t with
+  | ok res =>
+    exfalso
+    unfold addTransaction at h
+    split at h
+    · rename_i st hloop
+      have hom := (loop_omitted t.date t.posts _ st 0 hloop).1 rfl
+      rcases hom with ⟨_, h0⟩ | ⟨_, h1⟩ <;> omega
+    all_goals simp at h
+  | err e => exact ⟨e, rfl⟩
+  | panic s => rw [h] at hc; simp [Outcome.crashes] at hc
+  | fuelOut => rw [h] at hc; simp [Outcome.crashes] at hc
+
+/-- **C03_omitted**: the posting written without amount receives exactly the negation of the sum of the other
+postings' balancing values, commodity by commodity (`st` is the state after evaluating the postings; in the total
+the omitted posting itself contributes nothing, an assignment posting contributes its inferred amount). -/
+theorem C03_omitted (prec : κ → Option Nat) (bal : Balance α κ) (t : RTxn α κ) (res : TxnResult α κ) (st : TxnState α κ)
+    (hloop : loopPostings t.date ⟨[], none, [], bal, [], []⟩ 0 t.posts = .ok st)
+    (h : addTransaction prec bal t = .ok res) (hom : omittedCount t.posts = 1) :
+    ∃ u, st.unfilled = some u ∧
+      ((res.txn.postings[u]?).map (·.amount)) = some st.balance.neg ∧
+      (∀ c, Amount.getPart st.balance.neg c = - Spec.total t.posts (st.postings.map (·.amount)) c) ∧
+      (∀ j, j ≠ u → (res.txn.postings[j]?).map (·.amount) = (st.postings[j]?).map (·.amount)) := by
+  have hbal := BalOK_loop t.date t.posts _ st 0 hloop (BalOK_init bal)
+  obtain ⟨outs, ds, hp, hd, hal⟩ := loop_aligned t.date t.posts _ st 0 hloop
+  simp only [List.nil_append] at hp hd
+  have hidx := IdxOK_loop t.date t.posts _ st 0 hloop ⟨rfl, by simp⟩
+  have hom' := (loop_omitted t.date t.posts _ st 0 hloop).1 rfl
+  unfold addTransaction at h
+  rw [hloop] at h
+  simp only at h
+  cases hu : st.unfilled with
+  | none =>
+    rcases hom' with ⟨_, h0⟩ | ⟨h1, _⟩
+    · omega
+    · simp [hu] at h1
+  | some u =>
+    have hlt := hidx.2 u hu
+    have hget : st.postings[u]? = some st.postings[u] := by simp [hlt]
+    simp only [hu, hget, Option.map_some] at h
+    simp only [Outcome.ok.injEq] at h
+    subst h
+    refine ⟨u, rfl, by simp [hlt], ?_, ?_⟩
+    · intro c
+      rw [Amount.getPart_neg, hbal.2 c, hd, hp, aligned_total t.posts outs ds hal c]
+    · intro j hj
+      simp [Ne.symm hj]
+
+theorem Balance.setPartial_get_ne (b b' : Balance α κ) (a a' : α) (x prev : PostingAmt κ)
+    (h : Balance.setPartial b a x = .ok (b', prev)) (hne : a ≠ a') : Balance.get b' a' = Balance.get b a' := by
+  cases x with
+  | zero =>
+    simp only [Balance.setPartial] at h
+    split at h
+    · simp only [Outcome.ok.injEq, Prod.mk.injEq] at h
+      rw [← h.1]; simp [Balance.get_insert, hne]
+    · simp at h
+  | single s =>
+    simp only [Balance.setPartial, Outcome.ok.injEq, Prod.mk.injEq] at h
+    rw [← h.1]; simp [Balance.get_insert, hne]
+
+/-- **C03_frame**: inference never alters any other account: an account not named by the transaction keeps its
+balance. -/
+theorem C03_frame_step (date : Date) (st st' : TxnState α κ) (idx : Nat) (p : RPosting α κ) (a : α)
+    (h : stepPosting date st idx p = .ok st') (hne : p.account ≠ a) :
+    Balance.get st'.bal a = Balance.get st.bal a := by
+  cases ha : p.amount with
+  | some ra =>
+    rw [stepPosting_amount date st idx p ra ha] at h
+    split at h
+    · simp at h
+    · simp only [Outcome.ok.injEq] at h; subst h
+      simp [Balance.get_addPostingAmount, hne]
+  | none =>
+    cases hb : p.balance with
+    | none =>
+      rw [stepPosting_omitted date st idx p ha hb] at h
+      split at h
+      · simp at h
+      · simp only [Outcome.ok.injEq] at h; subst h; rfl
+    | some x =>
+      rw [stepPosting_assign date st idx p x ha hb] at h
+      cases hs : Balance.setPartial st.bal p.account x with
+      | ok r =>
+        obtain ⟨bal', prev⟩ := r
+        rw [hs] at h
+        simp only at h
+        cases hc : x.checkSub prev with
+        | ok amount =>
+          rw [hc] at h
+          simp only [Outcome.ok.injEq] at h; subst h
+          exact Balance.setPartial_get_ne _ _ _ _ _ _ hs hne
+        | err e => rw [hc] at h; simp at h
+        | panic e => rw [hc] at h; simp at h
+        | fuelOut => rw [hc] at h; simp at h
+      | err e => rw [hs] at h; simp at h
+      | panic e => rw [hs] at h; simp at h
+      | fuelOut => rw [hs] at h; simp at h
+
+theorem C03_frame_loop (date : Date) (ps : List (RPosting α κ)) (st st' : TxnState α κ) (idx : Nat) (a : α)
+    (h : loopPostings date st idx ps = .ok st') (hne : ∀ p ∈ ps, p.account ≠ a) :
+    Balance.get st'.bal a = Balance.get st.bal a := by
+  induction ps generalizing st idx with
+  | nil => simp [loopPostings] at h; subst h; rfl
+  | cons p ps ih =>
+    simp only [loopPostings] at h
+    split at h
+    · rename_i st1 h1
+      rw [ih st1 (idx + 1) h (fun q hq => hne q (List.mem_cons_of_mem _ hq)),
+        C03_frame_step date st st1 idx p a h1 (hne p (by simp))]
+    all_goals simp at h
+
+/-- every emitted posting carries the account of some posting of the transaction -/
+theorem aligned_account (ps : List (RPosting α κ)) (os : List (OutPosting α κ)) (ds : List (PostingAmt κ))
+    (hal : Aligned ps os ds) : ∀ o ∈ os, ∃ p ∈ ps, p.account = o.account := by
+  induction ps generalizing os ds with
+  | nil => intro o ho; cases os <;> cases ds <;> simp [Aligned] at hal; simp at ho
+  | cons p ps ih =>
+    intro o ho
+    cases os with
+    | nil => simp at ho
+    | cons o' os' =>
+      cases ds with
+      | nil => simp [Aligned] at hal
+      | cons d ds' =>
+        simp only [Aligned] at hal
+        simp only [List.mem_cons] at ho
+        rcases ho with rfl | ho
+        · exact ⟨p, by simp, hal.1.1.symm⟩
+        · obtain ⟨q, hq, hqa⟩ := ih os' ds' hal.2 o ho
+          exact ⟨q, List.mem_cons_of_mem _ hq, hqa⟩
+
+theorem C03_frame (prec : κ → Option Nat) (bal : Balance α κ) (t : RTxn α κ) (res : TxnResult α κ) (a : α)
+    (h : addTransaction prec bal t = .ok res) (hne : ∀ p ∈ t.posts, p.account ≠ a) :
+    Balance.get res.bal a = Balance.get bal a := by
+  unfold addTransaction at h
+  cases hloop : loopPostings t.date ⟨[], none, [], bal, [], []⟩ 0 t.posts with
+  | ok st =>
+    rw [hloop] at h
+    simp only at h
+    have hfr := C03_frame_loop t.date t.posts _ st 0 a hloop hne
+    obtain ⟨outs, ds, hp, hd, hal⟩ := loop_aligned t.date t.posts _ st 0 hloop
+    simp only [List.nil_append] at hp
+    cases hu : st.unfilled with
+    | some u =>
+      simp only [hu] at h
+      cases hg : st.postings[u]? with
+      | none => simp [hg] at h
+      | some o =>
+        simp only [hg, Option.map_some, Outcome.ok.injEq] at h
+        subst h
+        simp only [Balance.get_addAmount]
+        have ho : o ∈ outs := by rw [← hp]; exact List.mem_of_getElem? hg
+        obtain ⟨q, hq, hqa⟩ := aligned_account t.posts outs ds hal o ho
+        have : o.account ≠ a := by rw [← hqa]; exact hne q hq
+        simp [this, hfr]
+    | none =>
+      simp only [hu] at h
+      cases hcb : checkBalance prec t.date st.postings st.balance with
+      | ok r =>
+        rw [hcb] at h
+        simp only [Outcome.ok.injEq] at h; subst h; exact hfr
+      | err e => rw [hcb] at h; simp at h
+      | panic e => rw [hcb] at h; simp at h
+      | fuelOut => rw [hcb] at h; simp at h
+  | err e => rw [hloop] at h; simp at h
+  | panic e => rw [hloop] at h; simp at h
+  | fuelOut => rw [hloop] at h; simp at h
+
+-- non-vacuity: assignment after a history, and an omitted posting absorbing two commodities
+example : (addTransaction (α := Nat) (κ := Nat) (fun _ => none) [(0, [(1, 7)])]
+    ⟨⟨2024, 1, 1⟩, [⟨0, none, some (.single ⟨10, 1⟩)⟩, ⟨1, none, none⟩]⟩).isOk = true := by decide +kernel
+example : (addTransaction (α := Nat) (κ := Nat) (fun _ => none) [(0, [(1, 7), (2, 3)])]
+    ⟨⟨2024, 1, 1⟩, [⟨0, none, some .zero⟩, ⟨1, none, none⟩]⟩).isErr = true := by decide +kernel
+
+end Okane
+
+namespace Okane
+
+/-! ## "leaves the account at X" at the end of the transaction is false of the code when the transaction's
+omitted posting is on the same account (finding F12): `A` / `A = 10 USD` / `B 5 USD` ends with A at 5 USD. -/
+theorem C03_leaves_at_X_false :
+    (match addTransaction (α := Nat) (κ := Nat) (fun _ => none) []
+        ⟨⟨2024, 1, 1⟩, [⟨0, none, none⟩, ⟨0, none, some (.single ⟨10, 1⟩)⟩, ⟨1, some (.plain (.single ⟨5, 1⟩)), none⟩]⟩ with
+     | .ok res => Amount.getPart (Balance.get res.bal 0) 1 == 10
+     | _ => true) = false := by decide +kernel
+
+end Okane
